@@ -125,6 +125,22 @@ fn scenario(name: &str, n: i64) {
                     vec![],
                 )
             };
+            if order == "uni" || order == "xor" || order == "inthit" {
+                // a tall pile of rectangles that ARE in the result: each one's lower edge records the upper edge of the
+                // rectangle below as its nearest lower result edge (a chain of n links); "inthit": an intersection whose
+                // clipping box covers the left ends of all rectangles and stops the sweep early
+                let a = MultiPolygon((0..n).map(|i| rect(0.0, 2.0 * i as f64, 10.0, 2.0 * i as f64 + 1.0)).collect::<Vec<_>>());
+                if order == "inthit" {
+                    let b = MultiPolygon(vec![rect(-1.0, -1.0, 5.0, 2.0 * n as f64)]);
+                    let r = a.intersection(&b);
+                    assert!(r.0.len() == n as usize);
+                    return;
+                }
+                let b = MultiPolygon(vec![rect(20.0, 0.25, 21.0, 0.75), rect(-5.0, 0.25, 1.0, 0.75)]);
+                let r = if order == "uni" { a.union(&b) } else { a.xor(&b) };
+                assert!(r.0.len() >= n as usize);
+                return;
+            }
             if order == "intdesc" || order == "intmix" {
                 // staggered left ends: every new segment enters the status BELOW all the others ("intdesc") or alternately
                 // below and above ("intmix"); the clipping box ends before the rectangles do, so the sweep stops early
